@@ -6,6 +6,7 @@ import (
 	"bytes"
 	"context"
 	"errors"
+	"io"
 	"io/fs"
 	"os"
 	"time"
@@ -28,8 +29,9 @@ import (
 var vdErrSys = errors.New("vd: injected syscall failure")
 
 type vdOpenFile struct {
-	path   string
-	closed bool
+	path     string
+	closed   bool
+	readOnly bool // writes fail with EBADF (a handle that was opened read-only)
 }
 
 type vdFS struct {
@@ -142,6 +144,10 @@ func verifOSFileWrite(file *os.File, p []byte) (int, error) {
 	if of == nil || of.closed {
 		return 0, &fs.PathError{Op: "write", Path: "?", Err: fs.ErrClosed}
 	}
+	if of.readOnly {
+		f.invariant()
+		return 0, &fs.PathError{Op: "write", Path: of.path, Err: errors.New("bad file descriptor")}
+	}
 	if err := f.step(); err != nil {
 		n := 0
 		if len(p) > 0 {
@@ -158,6 +164,28 @@ func verifOSFileWrite(file *os.File, p []byte) (int, error) {
 	}
 	f.invariant()
 	return len(p), nil
+}
+
+// verifOSFileReadFrom: (*os.File).ReadFrom = generic copy loop through Write (no splice / copy_file_range).
+func verifOSFileReadFrom(file *os.File, r io.Reader) (int64, error) {
+	var total int64
+	buf := make([]byte, 4)
+	for {
+		n, rerr := r.Read(buf)
+		if n > 0 {
+			m, werr := verifOSFileWrite(file, buf[:n])
+			total += int64(m)
+			if werr != nil {
+				return total, werr
+			}
+		}
+		if rerr == io.EOF {
+			return total, nil
+		}
+		if rerr != nil {
+			return total, rerr
+		}
+	}
 }
 
 func verifOSFileClose(file *os.File) error {
@@ -188,6 +216,9 @@ func verifOSRename(oldpath, newpath string) error {
 	data, ok := f.files[oldpath]
 	if !ok {
 		return &os.LinkError{Op: "rename", Old: oldpath, New: newpath, Err: fs.ErrNotExist}
+	}
+	if f.dirs[newpath] {
+		return &os.LinkError{Op: "rename", Old: oldpath, New: newpath, Err: errors.New("file exists")}
 	}
 	delete(f.files, oldpath)
 	f.files[newpath] = data
@@ -253,6 +284,20 @@ func verifOSMkdirAll(path string, perm os.FileMode) error {
 	return nil
 }
 
+// vdPlainReader has only Read (no WriteTo), so io.Copy uses the destination's ReaderFrom when it has one.
+type vdPlainReader struct{ r *bytes.Reader }
+
+func (p vdPlainReader) Read(b []byte) (int, error) { return p.r.Read(b) }
+
+func vdWriteTo(w io.Writer, data []byte, viaCopy bool) error {
+	if viaCopy {
+		_, err := io.Copy(w, vdPlainReader{bytes.NewReader(data)})
+		return err
+	}
+	_, err := w.Write(data)
+	return err
+}
+
 func (f *vdFS) tempFilesLeft() int {
 	n := 0
 	for p := range f.files {
@@ -302,12 +347,13 @@ func VerifLemma_C15C_AtomicPut() {
 	b := &bucket{rootPath: root, absoluteRootPath: root}
 	w, err := b.Put(context.Background(), "sub/obj.bin", storage.PutWithAtomic())
 	failed := err != nil
+	viaCopy := verifNondetBool() // drive the object with io.Copy (uses ReaderFrom if the object has one) or with Write
 	if err == nil {
-		_, werr := w.Write(data1)
+		werr := vdWriteTo(w, data1, viaCopy)
 		failed = failed || werr != nil
 		// a caller may stop at the first error or carry on; both must be safe
 		if twoWrites && (werr == nil || verifNondetBool()) {
-			_, werr2 := w.Write(data2)
+			werr2 := vdWriteTo(w, data2, viaCopy)
 			failed = failed || werr2 != nil
 		} else if twoWrites {
 			failed = true // the caller gave up before writing everything: it will not treat Close()==nil as success
@@ -337,5 +383,208 @@ func VerifLemma_C15C_AtomicPut() {
 	}
 	for _, of := range f.open {
 		verifAssert(of.closed, "every opened file is closed")
+	}
+}
+
+// ===================================================================================================
+// Second lemma: only fault classes that can be produced identically on the real file system, so that a counterexample
+// replays natively (real os package on a temp directory):
+//   - the temp file's handle is replaced by a read-only handle before the k-th write: that write and all later ones
+//     fail, Close of the handle succeeds ("write fails, close succeeds");
+//   - the temp file disappears before Close: Rename fails and Remove fails;
+//   - the destination is a directory: Rename fails, Remove succeeds.
+// ===================================================================================================
+
+type vdWorld struct {
+	root  string
+	final string
+}
+
+func vdNewWorld(subdirExists bool, oldPresent bool, oldData []byte, destIsDir bool) *vdWorld {
+	w := &vdWorld{}
+	if verifInEngine() {
+		w.root = "/cache"
+		w.final = w.root + "/sub/obj.bin"
+		f := &vdFS{files: map[string][]byte{}, dirs: map[string]bool{"/": true, w.root: true}, open: map[*os.File]*vdOpenFile{}, watch: w.final}
+		vdFSState = f
+		if subdirExists {
+			f.dirs[w.root+"/sub"] = true
+		}
+		if oldPresent {
+			f.oldPresent, f.oldData = true, oldData
+			f.files[w.final] = oldData
+		}
+		if destIsDir {
+			f.dirs[w.final] = true
+		}
+		return w
+	}
+	root, err := os.MkdirTemp("", "verif-c15c-")
+	if err != nil {
+		panic(err)
+	}
+	w.root = root
+	w.final = root + "/sub/obj.bin"
+	if subdirExists {
+		if err := os.Mkdir(root+"/sub", 0755); err != nil {
+			panic(err)
+		}
+	}
+	if oldPresent {
+		if err := os.WriteFile(w.final, oldData, 0644); err != nil {
+			panic(err)
+		}
+	}
+	if destIsDir {
+		if err := os.Mkdir(w.final, 0755); err != nil {
+			panic(err)
+		}
+	}
+	return w
+}
+
+func (w *vdWorld) cleanup() {
+	if !verifInEngine() {
+		os.RemoveAll(w.root)
+	}
+}
+
+// readFinal returns the content of the final path (present=false: no regular file there).
+func (w *vdWorld) readFinal() ([]byte, bool) {
+	if verifInEngine() {
+		data, ok := vdFSState.files[w.final]
+		return data, ok
+	}
+	info, err := os.Lstat(w.final)
+	if err != nil || !info.Mode().IsRegular() {
+		return nil, false
+	}
+	data, err := os.ReadFile(w.final)
+	if err != nil {
+		return nil, false
+	}
+	return data, true
+}
+
+// tempLeft counts directory entries next to the final path other than the final path itself.
+func (w *vdWorld) tempLeft() int {
+	if verifInEngine() {
+		return vdFSState.tempFilesLeft()
+	}
+	entries, err := os.ReadDir(w.root + "/sub")
+	if err != nil {
+		return 0
+	}
+	n := 0
+	for _, e := range entries {
+		if e.Name() != "obj.bin" {
+			n++
+		}
+	}
+	return n
+}
+
+// breakHandle replaces the object's temp-file handle by a read-only one: writes fail, Close succeeds.
+func (w *vdWorld) breakHandle(woc *writeObjectCloser) {
+	if verifInEngine() {
+		vdFSState.open[woc.file].readOnly = true
+		return
+	}
+	ro, err := os.Open(woc.file.Name())
+	if err != nil {
+		panic(err)
+	}
+	woc.file.Close()
+	woc.file = ro
+}
+
+// loseTemp removes the temp file behind the object's back: Rename and Remove will both fail.
+func (w *vdWorld) loseTemp(woc *writeObjectCloser) {
+	if verifInEngine() {
+		delete(vdFSState.files, vdFSState.open[woc.file].path)
+		return
+	}
+	os.Remove(woc.file.Name())
+}
+
+// VerifLemma_C15C_AtomicPutRealFaults: see the comment above. Checked: (1) a failed write is reported by Write/io.Copy
+// and by Close; (2) after any failure the final path is unchanged (old content, absent, or still the directory) and no
+// temp file is left (unless the temp file itself was lost); (3) a failing Rename makes Close return an error whatever is
+// at the destination; (4) Close()==nil => the final path holds exactly the written bytes; (5) engine only: the
+// crash-point invariant at every syscall boundary.
+func VerifLemma_C15C_AtomicPutRealFaults() {
+	subdirExists := verifNondetBool()
+	oldPresent, destIsDir := false, false
+	var oldData []byte
+	if subdirExists {
+		switch verifNondetChoice(3) {
+		case 1:
+			oldPresent = true
+			oldData = verifNondetBytes(verifParam("DATA"))
+		case 2:
+			destIsDir = true
+		}
+	}
+	data1 := verifNondetBytes(verifParam("DATA"))
+	data2 := verifNondetBytes(verifParam("DATA"))
+	newData := append(append([]byte(nil), data1...), data2...)
+	breakBefore := verifNondetChoice(3) // 0: never, 1: before the first write, 2: before the second write
+	loseTemp := verifNondetBool()
+	viaCopy := verifNondetBool()
+	world := vdNewWorld(subdirExists, oldPresent, oldData, destIsDir)
+	defer world.cleanup()
+	if verifInEngine() {
+		vdFSState.newData = newData
+		if destIsDir {
+			vdFSState.watch = world.final + "/<none>" // the final path is a directory: nothing to watch
+		}
+	}
+	b := &bucket{rootPath: world.root, absoluteRootPath: world.root}
+	w, err := b.Put(context.Background(), "sub/obj.bin", storage.PutWithAtomic())
+	verifAssert(err == nil, "Put on a healthy file system succeeds")
+	if err != nil {
+		return
+	}
+	woc, ok := w.(*writeObjectCloser)
+	verifAssert(ok, "harness: the disk bucket returns its writeObjectCloser")
+	if !ok {
+		return
+	}
+	if breakBefore == 1 {
+		world.breakHandle(woc)
+	}
+	werr1 := vdWriteTo(w, data1, viaCopy)
+	if breakBefore == 2 {
+		world.breakHandle(woc)
+	}
+	werr2 := vdWriteTo(w, data2, viaCopy)
+	mustFail := (breakBefore == 1 && len(data1) > 0) || (breakBefore != 0 && len(data2) > 0)
+	writeFailed := werr1 != nil || werr2 != nil
+	verifAssert(!mustFail || writeFailed, "a failing write is reported by Write / io.Copy")
+	// (a zero-length write on the broken handle may or may not fail)
+	verifAssert(breakBefore != 0 || !writeFailed, "writes on a healthy handle succeed")
+	if loseTemp {
+		world.loseTemp(woc)
+	}
+	cerr := w.Close()
+	verifCover("closed")
+	if writeFailed {
+		verifAssert(cerr != nil, "Close of an atomic put reports an earlier failed write")
+	}
+	if loseTemp || destIsDir {
+		verifAssert(cerr != nil, "a failing Rename makes Close return an error, whatever is at the destination")
+	}
+	cur, present := world.readFinal()
+	if cerr == nil {
+		verifCover("published")
+		verifAssert(present && bytes.Equal(cur, newData), "Close()==nil: the final path holds exactly the written bytes")
+		verifAssert(world.tempLeft() == 0, "Close()==nil: no temp file is left")
+	} else {
+		verifCover("failed")
+		verifAssert(present == oldPresent && (!present || bytes.Equal(cur, oldData)), "failed atomic put: the final path is unchanged")
+		verifAssert(world.tempLeft() == 0, "failed atomic put: no temp file is left")
+	}
+	if !writeFailed && !loseTemp && !destIsDir {
+		verifAssert(cerr == nil, "no failure: Close succeeds")
 	}
 }
